@@ -2,6 +2,7 @@ import XmppModel.Prelude.Hex
 import XmppModel.Prelude.Xml
 import XmppModel.Model.Encoder
 import XmppModel.Model.SendGuard
+import XmppModel.Model.ValueForms
 /-! Driver for C05 (see harness/c05 for the line protocol).
 
     tx <entry> <ns> <from|-> <startTok|-> <toks>   -> <status> <canonical wire tokens>
@@ -125,7 +126,7 @@ def handle (args : List String) : Option String :=
     | "sendel" => do
       let (n, as) ← startOf start
       pure (outLine cfg "ok" (sendElementToks n as ts))
-    | "enc" => pure (outLine cfg "ok" ts)
+    | "enc" => pure (outLine cfg "ok" (ValueForms.handed (ValueForms.sourceOfForm _form) ts))
     | "tw" =>
       if _form.startsWith "f:" then do
         let pos ← mapM? (fun (x : String) => x.toNat?) (splitList (_form.drop 2).toString)
@@ -133,10 +134,10 @@ def handle (args : List String) : Option String :=
         let o := exec ⟨[], []⟩ (ops ++ [.flush])
         pure s!"ok {encToks (canon cfg.ns o.wire)}"
       else pure (outLine cfg "ok" ts)
-    | "reply" => pure (outLine cfg "ok" ts)
+    | "reply" => pure (outLine cfg "ok" (ValueForms.handed (ValueForms.sourceOfForm _form) ts))
     | "encel" | "replyel" => do
       let (n, as) ← startOf start
-      pure (outLine cfg "ok" (replaceOuter n as 0 ts))
+      pure (outLine cfg "ok" (replaceOuter n as 0 (ValueForms.handed (ValueForms.sourceOfForm _form) ts)))
     | "iq" => pure (stanzaLine cfg .iq ts)
     | "msg" => pure (stanzaLine cfg .message ts)
     | "pres" => pure (stanzaLine cfg .presence ts)
